@@ -368,6 +368,8 @@ def gen_history(rng: random.Random, prog, n_ops):
             hist.append({"op": "build_new", "outs": rng.sample(made, min(k_, len(made))), "drop": rng.random() < 0.7})
         elif r < 0.5:
             req = lf.gen_request(rng, prog, allow_bad=True, allow_dup=(rng.random() < 0.35))
+            if rng.random() < 0.2:
+                req = lf.gen_odd_request(rng, prog) or req
             if rng.random() < 0.12 and req["inputs"] and req["outputs"]:
                 # an output named like an input: ScopeError in the middle of the build
                 req["outputs"][0][0] = req["inputs"][0][0]
